@@ -508,6 +508,11 @@ class SymExec:
             if self.mode == 'real':
                 if not is_sym(a) and not is_sym(b) and not isinstance(a, (XR, XInf)) and not isinstance(b, (XR, XInf)) and a == b:
                     return a
+                if isinstance(a, XInf) and isinstance(b, XInf) and a.sign == b.sign:
+                    return a
+                if isinstance(a, (XR, XInf)) or isinstance(b, (XR, XInf)):
+                    # merging a finite value with an infinity: fork instead (values stay plain reals or concrete infinities)
+                    raise MergeFail()
                 return r_select(c, a, b)
             return z3.If(c, fpz3(a, t.bits), fpz3(b, t.bits))
         if t.kind == 'ptr':
@@ -1255,6 +1260,10 @@ class SymExec:
             if not st.pending:
                 st.pending_pc_len = len(st.pc)
             st.pending.append((label, cond))
+            if self.opts.get('separate_asserts'):
+                self.flush_asserts(st)
+                if is_sym(cond):
+                    st.pc.append(cond)
             return None
         if name == 'verif_reach':
             label = self.cstring(st, args[0])
@@ -1272,6 +1281,40 @@ class SymExec:
                     v = struct.unpack('<Q', struct.pack('<d', float(v)))[0]
                 st.trace.append('obs %x' % v)
             return None
+        if name == 'verif_close' and self.mode == 'real':
+            a, b, scale = args
+            if any(isinstance(v, (XInf, XR)) for v in (a, b, scale)):
+                raise Unsupported('verif_close on a possibly infinite value')
+            sa = self.fabs(scale, llir.DOUBLE)
+            d = self.fabs(self.farith('fsub', a, b, 64), llir.DOUBLE)
+            if all(isinstance(v, Fraction) for v in (sa, d)):
+                return 1 if d <= Fraction(1, 10**7) * max(sa, 1) else 0
+            saz, dz = rz3(sa), rz3(d)
+            lim = z3.If(saz > 1, saz, z3.RealVal(1)) * z3.RealVal('1/10000000')
+            return z3.If(dz <= lim, z3.BitVecVal(1, 32), z3.BitVecVal(0, 32))
+        if name in ('verif_approx_eq', 'verif_close'):
+            a, b, scale = args
+            if self.mode == 'real':
+                from .symval import r_eq
+                r = r_eq(a, b)
+                if r is True:
+                    return 1
+                if r is False:
+                    return 0
+                return z3.If(r, z3.BitVecVal(1, 32), z3.BitVecVal(0, 32))
+            # IEEE modes: same tolerance as the native replay
+            s_ = self.fabs(scale, llir.DOUBLE)
+            one = 1.0
+            c1 = fp_fcmp('ogt', s_, one, 64)
+            s2 = self.ite(boolean(c1), s_, one, llir.DOUBLE) if is_sym(c1) else (s_ if c1 else one)
+            d = self.fabs(self.farith('fsub', a, b, 64), llir.DOUBLE)
+            lim = self.farith('fmul', 1e-7, s2, 64)
+            r1 = fp_fcmp('oeq', a, b, 64)
+            r2 = fp_fcmp('ole', d, lim, 64)
+            if not is_sym(r1) and not is_sym(r2):
+                return 1 if (r1 or r2) else 0
+            rb = z3.Or(boolean(r1) if is_sym(r1) else z3.BoolVal(bool(r1)), boolean(r2) if is_sym(r2) else z3.BoolVal(bool(r2)))
+            return z3.If(rb, z3.BitVecVal(1, 32), z3.BitVecVal(0, 32))
         if name == 'verif_known_region':
             label = self.cstring(st, args[0])
             c = args[1]
@@ -1413,6 +1456,8 @@ class SymExec:
                 return a
             if lt is False:
                 return b
+            if isinstance(a, (XR, XInf)) or isinstance(b, (XR, XInf)):
+                raise Unsupported('min/max of a symbolic value with an infinity in real mode')
             return r_select(lt, a, b)
         if not is_sym(a) and not is_sym(b):
             if math.isnan(a):
